@@ -269,8 +269,8 @@ Definition run_case (s : sexp) : sexp :=
     match dec_list dec_item items, dec_list dec_bind binds, dec_list dec_item pre, dec_list dec_item late,
           dec_list dec_msg mdec, dec_obs obs, dec_list (fun x => match x with L [B j; B d] => Some (j, d) | _ => None end) topo with
     | Some items, Some binds, Some pre, Some late, Some mdec, Some (o, dig), Some topo =>
-      if negb (forallb citem_wf (citems_of (pre ++ late ++ items))) then v_badcase else
       let binary := negb (mode =? 0) in
+      if negb (forallb (citem_wf binary) (citems_of (pre ++ late ++ items))) then v_badcase else
       let marker := EItem (if binary then IFrame munit None else ILine munit false None) mdec in
       let tab := table_of (marker :: pre ++ late ++ items) in
       let unm := unm_of tab in
